@@ -15,13 +15,17 @@ OVERLAY = {
 C09_CLAUSES = {
     "metadata-call-panic", "watcher-panic", "reobs-panic", "malformed-event-ends-watcher", "wellformed-event-dropped",
     "page-loop-spin", "page-gap-or-overlap", "final-message-not-forwarded", "height-not-resent",
-    "fetch-stalled", "poller-not-enabled",
+    "fetch-stalled", "poller-not-enabled", "reobs-wellformed-event-dropped",
 }
 
 
 # A page overlap means an event is fetched - and hence forwarded - twice: that breaks C09's "exactly once" and equally
 # C08's "the polling path forwards each fetched event at most once", so both checks report it.
-SHARED_CLAUSES = {"page-gap-or-overlap"}
+#
+# poll-forwarded-twice (one log position of the governance contract handed to the signer twice by the polling path - by one
+# incarnation of the watcher or, after a restart of Run on the same Watcher value, by two) is C08's "forwards each fetched
+# event at most once" and C09's "exactly once by the polling path" alike.
+SHARED_CLAUSES = {"page-gap-or-overlap", "poll-forwarded-twice"}
 
 
 def owner(clause):
